@@ -11,9 +11,10 @@ IMPORTS = ("From PKO Require Import Base Owner Api Phase ObjectSet PhaseControll
 
 ID_MON = "C15 delegated phase: phase object not carrying the phase / relayed Available not for the current generation / gate or teardown order broken / foreign class reconciled"
 ID_TWIN = "C15 delegated phase behaves differently from the in-process phase (member objects at quiescence, first-write order or teardown progress differ)"
-ID_OWN = "C15 ObjectSet relays the status of an ObjectSetPhase it does not control (remotePhase.Reconcile ignores the controller of an existing phase object)"
+ID_OWN = ("C15 ObjectSet relays or records an ObjectSetPhase it does not control (status / status.remotePhases), or drops the "
+          "controllerOf a controlled phase object reports")
 PARTS = ["agree", "agree-twin", "m_carries", "m_relay", "m_gate", "m_teardown", "m_class", "m_final",
-         "twin-store", "twin-write-order", "twin-sets", "m_own"]
+         "twin-store", "twin-write-order", "twin-sets", "m_own", "m_remotes", "m_relay_ctrlof"]
 
 
 def step_sig(run):
@@ -108,7 +109,10 @@ def check(run, tier, seed, replay=None):
     if replay:
         scs = [json.load(open(replay))["replay"]["scenario"]]
     else:
-        scs = dl.gen(seed, tier)
+        import C11
+        # + each preflight-violating kind at every position of a delegated phase through the real phase controller
+        # (the in-process phase reports PreflightError and writes nothing; the delegated one must behave the same)
+        scs = dl.gen(seed, tier) + C11.phase_controller_violations()
     n, passes, idx, outs = delegation_stage(run, "C15", scs)
     run.cov["evaluations"] = n
     run.cov["controller_passes"] = passes
